@@ -459,21 +459,30 @@ theorem tokD (D1 D2 : Line) (hne1 : D1 ≠ []) (hf1 : Free isWsC D1) (hne2 : D2 
     splitBy_key isWsC "    ".toList "NumSites".toList " : ".toList D2 (by decide) (by decide) (free_of_all (by decide)) ' ' ": ".toList rfl (by decide) (by decide),
     splitBy_tok_end isWsC hne2 hf2]
 
+/-- a key/value line inside a `CoreRow` block appends its tokens to the current description -/
+theorem rowDescs_tokens (l : Line) (toks : List Line) (h : SclFalse l) (ht : splitBy isWsC l = toks)
+    (ds : List (List Line)) (d : List Line) (rest : List Line) :
+    rowDescs true (ds ++ [d]) (l :: rest) = rowDescs true (ds ++ [d ++ toks]) rest := by
+  simp only [rowDescs, h.2.1, h.2.2, Bool.false_eq_true, if_false, if_true, splitC_strip, ht, extendLast_last]
+
 theorem rowDescs_rowLines (r : Row) (rest : List Line) (inRow : Bool) (ds : List (List Line)) :
     rowDescs inRow ds (rowLines r ++ rest) = rowDescs false (ds ++ [rowDesc r]) rest := by
   have c0 : startsWith "CoreRow" (strip "CoreRow Horizontal".toList) = true := by decide
-  have c3 : startsWith "CoreRow" (strip "  Sitewidth     : 1".toList) = false ∧ startsWith "End" (strip "  Sitewidth     : 1".toList) = false ∧
-      split (replaceColon (strip "  Sitewidth     : 1".toList)) = ["Sitewidth".toList, ['1']] := by decide
-  have c4 : startsWith "CoreRow" (strip "  Sitespacing   : 1".toList) = false ∧ startsWith "End" (strip "  Sitespacing   : 1".toList) = false ∧
-      split (replaceColon (strip "  Sitespacing   : 1".toList)) = ["Sitespacing".toList, ['1']] := by decide
-  have c6 : startsWith "CoreRow" (strip "  Sitesymmetry  : 1".toList) = false ∧ startsWith "End" (strip "  Sitesymmetry  : 1".toList) = false ∧
-      split (replaceColon (strip "  Sitesymmetry  : 1".toList)) = ["Sitesymmetry".toList, ['1']] := by decide
+  have c3 : SclFalse "  Sitewidth     : 1".toList ∧ splitBy isWsC "  Sitewidth     : 1".toList = ["Sitewidth".toList, ['1']] := by decide
+  have c4 : SclFalse "  Sitespacing   : 1".toList ∧ splitBy isWsC "  Sitespacing   : 1".toList = ["Sitespacing".toList, ['1']] := by decide
+  have c6 : SclFalse "  Sitesymmetry  : 1".toList ∧ splitBy isWsC "  Sitesymmetry  : 1".toList = ["Sitesymmetry".toList, ['1']] := by decide
   have c8 : startsWith "CoreRow" (strip "End".toList) = false ∧ startsWith "End" (strip "End".toList) = true := by decide
-  simp only [rowLines, List.cons_append, List.nil_append, rowDescs, c0, if_true, (sclA _).2.1, (sclA _).2.2, (sclB _).2.1, (sclB _).2.2,
-    (sclC _).2.1, (sclC _).2.2, (sclD _).2.1, (sclD _).2.2, c3.1, c3.2.1, c3.2.2, c4.1, c4.2.1, c4.2.2, c6.1, c6.2.1, c6.2.2, c8.1, c8.2,
-    Bool.false_eq_true, if_false, splitC_strip, tokA _ (showInt_ne_nil _) (showInt_free _), tokB _ (showInt_ne_nil _) (showInt_free _),
-    tokC _ (orient_ne_nil _) (orient_free _), tokD _ _ (showInt_ne_nil _) (showInt_free _) (showInt_ne_nil _) (showInt_free _),
-    extendLast_last, List.append_assoc, List.cons_append, List.nil_append, rowDesc]
+  have start : rowDescs inRow ds (rowLines r ++ rest) = rowDescs true (ds ++ [[]]) ((rowLines r).tail ++ rest) := by
+    simp only [rowLines, List.cons_append, rowDescs, c0, if_true, List.tail_cons]
+  rw [start]
+  simp only [rowLines, List.tail_cons, List.cons_append, List.nil_append]
+  rw [rowDescs_tokens _ _ (sclA _) (tokA _ (showInt_ne_nil _) (showInt_free _)),
+    rowDescs_tokens _ _ (sclB _) (tokB _ (showInt_ne_nil _) (showInt_free _)),
+    rowDescs_tokens _ _ c3.1 c3.2, rowDescs_tokens _ _ c4.1 c4.2,
+    rowDescs_tokens _ _ (sclC _) (tokC _ (orient_ne_nil _) (orient_free _)),
+    rowDescs_tokens _ _ c6.1 c6.2,
+    rowDescs_tokens _ _ (sclD _) (tokD _ _ (showInt_ne_nil _) (showInt_free _) (showInt_ne_nil _) (showInt_free _))]
+  simp only [rowDescs, c8.1, c8.2, Bool.false_eq_true, if_false, if_true, List.nil_append, List.cons_append, rowDesc]
 
 theorem rowDescs_blocks (rs : List Row) : ∀ (inRow : Bool) (ds : List (List Line)),
     rowDescs inRow ds (rowBlocks rs) = ds ++ rs.map rowDesc := by
@@ -610,6 +619,20 @@ records, for every circuit whose pin offsets are printable with six digits. -/
 theorem readText_write (c : Circuit) (hp : printable c = true) : readText (writeText c) = read (write c) := by
   simp only [readText, writeText, read, readNodesT_write, readNodes_write, ok_bind, readNetsT_write c _ hp,
     readPlaceT_write, readRowsT_write]
+
+theorem printable_of_inDomain (c : Circuit) (h : inDomain c = true) : printable c = true := by
+  simp only [inDomain, Bool.and_eq_true] at h
+  obtain ⟨⟨⟨_, _⟩, hn⟩, _⟩ := h
+  rw [printable, List.all_eq_true]
+  intro n hm
+  have h1 := (List.all_eq_true.1 hn) n hm
+  simp only [Bool.and_eq_true] at h1
+  rw [List.all_eq_true]
+  intro p hpm
+  have h2 := (List.all_eq_true.1 h1.2) p hpm
+  simp only [pinOk, Bool.and_eq_true] at h2
+  simp only [pinPrintable, Bool.and_eq_true]
+  exact ⟨h2.1.2, h2.2⟩
 
 /-! ### `write_placement` / `load_placement` -/
 
